@@ -15,7 +15,7 @@ CONSTANTS
     REKEEP = FALSE
     MAXSAVES = 2
     ImportCleans = TRUE
-    UnmarshalMode = "merge"
+    UnmarshalMode = "replace"
     LoadSkipsBad = TRUE
 INVARIANT OfflineLaw
 INVARIANT PeerLaw
